@@ -16,6 +16,9 @@ Each family enumerates one dimension the property text names:
   zero       host number 0 at every position of an exclusion word (the enumeration of an exclusion ends there)
   twobr      two-bracket words as targets, as exclusions, in files, under filters
   size       exclusion files whose ranged form is exactly 4093..4097 and 8190..8193 bytes; long -x lists
+  malformed  exclusion words hostlist_create refuses (unbalanced brackets) at every position among well-formed ones
+  oneword    several words in ONE -w argument in every order of {target, -exclusion, /re/, -/re/}: the word after a dash
+  reonly     arguments holding only filters x the target source ($WCOLL read / ignored)
 """
 import itertools
 import os
@@ -365,6 +368,68 @@ def systematic(Case, cwd, thorough=False):
     mk.add("size", [("tgt", "n[1-40],m1,n[20-60]"), ("xcl", "n[2-3000]")], "sep", note="long-range")
     mk.add("size", [("tgt", "n[1-40],m1,n[20-60]"), ("xcl", ",".join("n%d" % v for v in range(2, 400, 2)))], "sep",
            note="long-list")
+    # ---------------------------------------------------------------- malformed exclusion words (hostlist_create refuses
+    # them: unbalanced brackets) at EVERY position among well-formed exclusions: the OTHER exclusions must still act.
+    # By meaning a malformed word names no host: `items` leaves it out, `opts` (what pdsh and the model get) carry it;
+    # each malformed word is an option of its own (an unbalanced bracket swallows the commas behind it)
+    mt = "foo[1-6],bar,baz"
+    good = [("xcl", "foo2"), ("xcl", "bar"), ("xcl", "foo[4-5]")]
+    for bi, bad in enumerate(["foo[9", "foo9]", "foo[1-", "[", "]foo[1"]):
+        for pos in range(len(good) + 1):
+            if bi > 1 and pos != (bi % (len(good) + 1)) and not thorough:
+                continue
+            for dash in (False, True):
+                if dash and (bi + pos) % 2 and not thorough:
+                    continue
+                words = [x for _, x in good]
+                words.insert(pos, bad)
+                opts = [("-w", mt)] + [(("-w", "-" + x) if dash else ("-x", x)) for x in words]
+                if pos % 2:
+                    opts = opts[1:] + opts[:1]        # the targets last
+                c = mk.add("malformed", [("tgt", mt)] + good, opts=opts, note="malformed-x")
+                c.tags.add("malformed-x")
+    f = mk.fname("x")
+    for pos in (0, 1, 2):
+        opts = [("-w", mt), ("-x", "^" + f), ("-x", "baz")]
+        opts.insert(1 + pos, ("-x", "foo[9"))
+        c = mk.add("malformed", [("tgt", mt), ("xfile", f), ("xcl", "baz")], files={f: ["foo[2-3]", "bar"]}, opts=opts,
+                   note="malformed-x")
+        c.tags.add("malformed-x")
+    # two malformed words around one good one; a malformed word next to filters
+    c = mk.add("malformed", [("tgt", mt), ("xcl", "foo3")], opts=[("-x", "foo[9"), ("-x", "foo3"), ("-x", "bar]"), ("-w", mt)],
+               note="malformed-x")
+    c.tags.add("malformed-x")
+    c = mk.add("malformed", [("tgt", mt), ("drop", "^ba"), ("xcl", "foo1")],
+               opts=[("-w", mt), ("-x", "foo1"), ("-x", "/^ba/"), ("-x", "foo[2")], note="malformed-x")
+    c.tags.add("malformed-x")
+    # ---------------------------------------------------------------- several words in ONE -w argument, in every order of
+    # {target, -exclusion, target, /re/, -/re/}: the word AFTER a dashed one is an ordinary word again
+    base3 = [("tgt", "a[1-4]"), ("xcl", "a2"), ("tgt", "b1,c7"), ("keep", "[1-47]$"), ("drop", "^a3")]
+    for k, perm in enumerate(itertools.permutations(base3)):
+        if k % 4 == 0 or thorough:
+            mk.add("oneword", perm, "one")
+    for t in (["a[1-4]", "-a2", "b1"], ["-a2", "a[1-4]", "b1"], ["a[1-4]", "-a2", "-a3", "b1", "-b9", "c1"],
+              ["a[1-4]", "-/2$/", "b1"], ["-/2$/", "a[1-4]", "b2"], ["a[1-4]", "-a2", "/[1-3]$/"], ["-a2", "/[1-3]$/", "a[1-4]"]):
+        items = [("xcl", w[1:]) if w.startswith("-") and not w.startswith("-/") else ("drop", w[2:-1]) if w.startswith("-/")
+                 else ("keep", w[1:-1]) if w.startswith("/") else ("tgt", w) for w in t]
+        mk.add("oneword", items, opts=[("-w", ",".join(t))], note="after-dash")
+    # ---------------------------------------------------------------- arguments holding ONLY filters x the target source
+    # ($WCOLL is read when no option produced a working collective: a /re/ word produces none)
+    for k, (ropts, ritems) in enumerate([
+            ([("-w", "/[13]$/")], [("keep", "[13]$")]),
+            ([("-w", "/[13]$/,-foo3")], [("keep", "[13]$"), ("xcl", "foo3")]),
+            ([("-w", "-foo3,/[13]$/")], [("xcl", "foo3"), ("keep", "[13]$")]),
+            ([("-w", "/^foo/,-/2$/")], [("keep", "^foo"), ("drop", "2$")]),
+            ([("-w", "/^foo/"), ("-w", "/[12]$/")], [("keep", "^foo"), ("keep", "[12]$")]),
+            ([("-w", "-/1$/")], [("drop", "1$")]),
+            ([("-x", "/1$/"), ("-w", "/o/")], [("drop", "1$"), ("keep", "o")]),
+            ([("-w", "/[13]$")], [("keep", "[13]$")])]):
+        f = mk.fname("w")
+        mk.add("reonly", [("tfile", f)] + ritems, files={f: ["foo[1-4]", "bar1"]}, wcoll_env=f, opts=ropts, note="WCOLL")
+        # the same filters with a target word in another option: $WCOLL is then ignored
+        g = mk.fname("w")
+        mk.add("reonly", ritems + [("tgt", "foo[2-3],bar1")], files={g: ["zz[1-3]"]}, wcoll_env=g,
+               opts=ropts + [("-w", "foo[2-3],bar1")], note="WCOLL-ignored")
     return mk.out
 
 
